@@ -12,11 +12,11 @@ func init() {
 	register(&propDef{
 		ID:      "C19",
 		Level:   "other",
-		Explain: "Static wiring proof for the upstream time limits: (F1) the package variable transports are built from is assigned, in its setter, a value derived from the setter's parameter; (F2) in NewTransport each http.Transport / net.Dialer limit field is stored the matching config.Proxy field of that variable (pairing table); (F3) main calls the setter with config.Load's result before any server or table watcher starts; (F4) every transport the HTTP proxy can use (default, insecure, per-route) is a transport.NewTransport result and ServeHTTP selects per-route > skip-verify > default; (F5) the reverse proxy's ErrorHandler is fabio's and maps net.Error timeouts to 504. Decided on all paths and call sites of the type-checked program. (D1) no context deadline is attached to the proxied HTTP request (it would outlive the response headers and cut slow bodies); (T4) no http.Transport sets MaxConnsPerHost (queueing inside net/http is covered by no timeout); Not decided: that net/http enforces the limits within the configured time (timing, delegated to net/http).",
+		Explain: "Static wiring proof for the upstream time limits, decided on value ORIGINS (c19_flow.go: where a value comes from, as access paths through helpers, parameters, locals, struct copies, closures and atomic cells, with the branch conditions under which each origin is selected) so that it does not depend on how the code is cut into functions or spelled: (F2) every http.Transport that transport.NewTransport returns is built for the call, and each limit field (ResponseHeaderTimeout, IdleConnTimeout, MaxIdleConnsPerHost; Timeout and KeepAlive of the net.Dialer whose Dial/DialContext it uses) holds, unmodified, the matching config.Proxy field read from a package-level configuration variable (pairing table); (F1) every store into that variable outside package initialisation assigns the matching part of a configuration parameter (or of config.Load's result); a program without such a store is reported at the functions that take a configuration; (F3) the program hands config.Load's result to the setter, and in main.main nothing that can reach NewTransport (call, go, callback) is started on a path on which the store has not been executed (helpers that set it on all their paths count; a callee that orders the two itself counts); (F4) every value stored into the default / skip-verify transport of the proxy and the per-route transport of a target is a NewTransport result, and the Transport of every httputil.ReverseProxy is selected per-route (when non-nil) > skip-verify (when the target says so) > default, nothing else; (F5) every reverse proxy has fabio's ErrorHandler and a Transport, and wherever the handler (or a helper) writes the status, 504 is selected on the edge where the error says Timeout(), no other test of the error except nil / sentinels disjoint from timeouts having to fail first. (D1) no context deadline is attached to the proxied HTTP request (it would outlive the response headers and cut slow bodies); (T4) no http.Transport sets MaxConnsPerHost (queueing inside net/http is covered by no timeout); Not decided: that net/http enforces the limits within the configured time (timing, delegated to net/http).",
 		Run:     runC19,
 		Trusted: []string{"net/http.Transport honours ResponseHeaderTimeout/IdleConnTimeout/MaxIdleConnsPerHost/Dial; net.Dialer honours Timeout/KeepAlive",
 			"httputil.ReverseProxy calls ErrorHandler on RoundTrip errors"},
-		Mutants: []mutant{
+		Mutants: append([]mutant{
 			{Name: "connection cap queues requests", File: "transport/transport.go", Old: "\t\tMaxIdleConnsPerHost:   cfg.Proxy.MaxConn,\n", New: "\t\tMaxIdleConnsPerHost:   cfg.Proxy.MaxConn,\n\t\tMaxConnsPerHost:       cfg.Proxy.MaxConn,\n", Expect: "C19.T4"},
 			{Name: "deadline on the whole upstream exchange", File: "proxy/http_proxy.go", Old: "\t\th = newHTTPProxy(targetURL, tr, p.Config.GlobalFlushInterval)\n", New: "\t\th = newHTTPProxy(targetURL, tr, p.Config.GlobalFlushInterval)\n\t\tif d := p.Config.ResponseHeaderTimeout; d > 0 {\n\t\t\tctx, cancel := context.WithTimeout(r.Context(), p.Config.DialTimeout+d)\n\t\t\tdefer cancel()\n\t\t\tr = r.WithContext(ctx)\n\t\t}\n", Expect: "C19.D1", More: []repl{{"import (\n", "import (\n\t\"context\"\n"}}},
 			{Name: "benign: request context wrapped without a deadline", File: "proxy/http_proxy.go", Old: "\t\th = newHTTPProxy(targetURL, tr, p.Config.GlobalFlushInterval)\n", New: "\t\th = newHTTPProxy(targetURL, tr, p.Config.GlobalFlushInterval)\n\t\tctx, cancel := context.WithCancel(r.Context())\n\t\tdefer cancel()\n\t\tr = r.WithContext(ctx)\n", Expect: "", More: []repl{{"import (\n", "import (\n\t\"context\"\n"}}},
@@ -33,219 +33,686 @@ func init() {
 			{Name: "deadline errors classified as client disconnects before the timeout test", File: "proxy/http_handler.go", Old: "\tif e, ok := err.(net.Error); ok {", New: "\tif err == context.DeadlineExceeded {\n\t\tstatusCode = StatusClientClosedRequest\n\t} else if e, ok := err.(net.Error); ok {", Expect: "C19.F5"},
 			{Name: "benign: canceled tested before the timeout", File: "proxy/http_handler.go", Old: "\tif e, ok := err.(net.Error); ok {", New: "\tif err == context.Canceled {\n\t\tstatusCode = StatusClientClosedRequest\n\t} else if e, ok := err.(net.Error); ok {", Expect: ""},
 			{Name: "benign: local alias for cfg.Proxy", File: "transport/transport.go", Old: "\treturn &http.Transport{", New: "\tp := cfg.Proxy\n\t_ = p\n\treturn &http.Transport{", Expect: ""},
-		},
+		}, c19moreMutants()...),
 	})
-}
-
-// transportCfgGlobal finds the package-level *config.Config variable NewTransport reads.
-func transportCfgGlobal(c *Ctx, newT *ssa.Function) *ssa.Global {
-	var g *ssa.Global
-	eachInstr(newT, func(i ssa.Instruction) {
-		if u, ok := i.(*ssa.UnOp); ok && u.Op == token.MUL {
-			if gl, ok := u.X.(*ssa.Global); ok && namedIs(gl.Type().(*types.Pointer).Elem(), "config.Config") {
-				g = gl
-			}
-		}
-	})
-	return g
 }
 
 func runC19(c *Ctx) {
 	runC19D1(c)
 	runC19T4(c)
-	newT := c.fn("transport", "NewTransport")
+	runC19F5(c)
+	newT := c.fn("transport", "NewTransport") // exported API, named by the property
 	if !c.need("C19.F2", newT, "transport.NewTransport") {
 		return
 	}
-	g := transportCfgGlobal(c, newT)
-	if g == nil {
-		c.undecided("C19.F1", "anchor|transport config variable", "NewTransport does not read a package-level *config.Config variable")
-		return
-	}
-	gname := "transport." + g.Name()
+	reqs := runC19F2(c, newT)
+	stores := runC19F1(c, newT, reqs)
+	runC19F3(c, newT, reqs, stores)
+	runC19F4(c, newT)
+}
 
-	// F1: a setter stores a parameter-derived value into the variable.
-	sp := c.spkg("transport")
-	nSetters := 0
-	for _, m := range sp.Members {
-		f, ok := m.(*ssa.Function)
-		if !ok || f.Name() == "init" || len(f.Blocks) == 0 {
-			continue
+// c19cfgType: t (through pointers) is a configuration struct of package config; rel is its position inside
+// config.Config ([] for config.Config itself, [Proxy] for config.Proxy).
+func c19cfgType(t types.Type) (rel []string, ok bool) {
+	switch {
+	case t == nil:
+		return nil, false
+	case namedIs(t, repoMod+"/config.Config"):
+		return []string{}, true
+	case namedIs(t, repoMod+"/config.Proxy"):
+		return []string{"Proxy"}, true
+	}
+	return nil, false
+}
+
+func c19eq(a, b []string) bool {
+	return strings.Join(a, ".") == strings.Join(b, ".") && len(a) == len(b)
+}
+
+// c19cfgReq: a variable the transports read their limits from, and the part of config.Config it has to hold.
+type c19cfgReq struct {
+	key  string   // "transport.cfg"
+	want []string // position inside config.Config the variable must hold: [] / [Proxy] / [Proxy DialTimeout]
+	root *ssa.Global
+	last string // last path element of key ("" when the variable is the global itself)
+}
+
+// c19aliasStores: the stores into fields of the object built at alloc a (named type typ), made directly or through a
+// pointer that resolves to a (a helper filling the object in).
+func c19aliasStores(c *Ctx, fl *c19flow, a *ssa.Alloc, typ string) map[string][]*ssa.Store {
+	out := fieldStores(a)
+	for _, f := range c.AllFns {
+		eachInstr(f, func(i ssa.Instruction) {
+			st, ok := i.(*ssa.Store)
+			if !ok {
+				return
+			}
+			fa, ok := st.Addr.(*ssa.FieldAddr)
+			if !ok || fa.X == a || !namedIs(fa.X.Type(), typ) {
+				return
+			}
+			for _, o := range fl.origins(fa.X) {
+				if o.root == a && len(o.fields) == 0 {
+					name := fieldName(fa.X.Type(), fa.Field)
+					out[name] = append(out[name], st)
+					return
+				}
+			}
+		})
+	}
+	return out
+}
+
+// F2: every transport NewTransport returns is an http.Transport built for the call whose limit fields hold the
+// matching field of the package's configuration variable.
+func runC19F2(c *Ctx, newT *ssa.Function) []c19cfgReq {
+	fl := &c19flow{stopParam: func(p *ssa.Parameter) bool { return p.Parent() == newT }}
+	var trs []*ssa.Alloc
+	eachInstr(newT, func(i ssa.Instruction) {
+		r, ok := i.(*ssa.Return)
+		if !ok {
+			return
 		}
-		hasCfgParam := false
-		for _, p := range f.Params {
-			if namedIs(p.Type(), "config.Config") {
-				hasCfgParam = true
+		good := len(r.Results) == 1
+		if good {
+			orgs := fl.origins(r.Results[0])
+			good = len(orgs) > 0
+			for _, o := range orgs {
+				a, isA := o.root.(*ssa.Alloc)
+				if !isA || len(o.fields) != 0 || !namedIs(a.Type(), "net/http.Transport") {
+					good = false
+					continue
+				}
+				dup := false
+				for _, t := range trs {
+					dup = dup || t == a
+				}
+				if !dup {
+					trs = append(trs, a)
+				}
 			}
 		}
-		if !hasCfgParam || f == newT {
-			continue
-		}
-		nSetters++
-		stored := false
-		var pos token.Pos = f.Pos()
-		for _, fn := range withAnon(f) {
-			eachInstr(fn, func(i ssa.Instruction) {
-				if st, ok := i.(*ssa.Store); ok && st.Addr == g {
-					pos = st.Pos()
-					if derives(st.Val, func(v ssa.Value) bool { p, ok := v.(*ssa.Parameter); return ok && namedIs(p.Type(), "config.Config") }) {
-						stored = true
-					}
-				}
-			})
-		}
-		c.check("C19.F1", fnKey(f)+"|store "+gname, pos, stored,
-			"setter must assign the package variable "+gname+" (read by NewTransport) a value derived from its *config.Config parameter; no such store exists in the function body (a parameter shadowing the variable makes `cfg = cfg` a self-assignment) => every transport is built from the zero config, i.e. without limits")
-	}
-	c.atLeast("C19.F1", "setter of "+gname+" taking *config.Config", nSetters, 1)
-
-	// F2: pairing table transport field <- config.Proxy field
-	pair := map[string]string{
-		"ResponseHeaderTimeout": "ResponseHeaderTimeout",
-		"IdleConnTimeout":       "IdleConnTimeout",
-		"MaxIdleConnsPerHost":   "MaxConn",
-	}
-	dialPair := map[string]string{"Timeout": "DialTimeout", "KeepAlive": "KeepAliveTimeout"}
-	trs := allocsOf(newT, "http.Transport")
-	if len(trs) != 1 {
-		c.undecided("C19.F2", "anchor|http.Transport literal in NewTransport", "expected exactly one http.Transport literal")
-		return
-	}
-	// the literal must be what is returned
-	eachInstr(newT, func(i ssa.Instruction) {
-		if r, ok := i.(*ssa.Return); ok {
-			c.check("C19.F2", "transport.NewTransport|return", r.Pos(), len(r.Results) == 1 && derives(r.Results[0], func(v ssa.Value) bool { return v == trs[0] }),
-				"NewTransport must return the transport literal whose fields are wired to the configuration")
-		}
+		c.check("C19.F2", "transport.NewTransport|return", r.Pos(), good,
+			"NewTransport must return an http.Transport built for this call (literal or field-by-field, possibly in a helper) so that its limit fields can be traced to the configuration")
 	})
-	fs := fieldStores(trs[0])
-	wantPath := func(field string) string { return gname + ".Proxy." + field }
-	checkField := func(stores []*ssa.Store, owner, field, cfgField string) {
+	if len(trs) == 0 {
+		c.undecided("C19.F2", "anchor|http.Transport built by NewTransport", "no http.Transport construction reaches NewTransport's result")
+		return nil
+	}
+
+	var reqs []c19cfgReq
+	addReq := func(q c19cfgReq) {
+		for _, x := range reqs {
+			if x.key == q.key && c19eq(x.want, q.want) {
+				return
+			}
+		}
+		reqs = append(reqs, q)
+	}
+	// read: the origin must be <configuration variable>.<rest> with rest leading to config.Proxy.<cfgField>
+	read := func(o c19org, cfgField string) (c19cfgReq, bool) {
+		g, ok := o.root.(*ssa.Global)
+		if !ok {
+			return c19cfgReq{}, false
+		}
+		for k := 0; k <= len(o.fields); k++ {
+			rel, isCfg := c19cfgType(o.types[k])
+			if !isCfg {
+				continue
+			}
+			if !c19eq(append(append([]string{}, rel...), o.fields[k:]...), []string{"Proxy", cfgField}) {
+				return c19cfgReq{}, false
+			}
+			q := c19cfgReq{key: c19org{root: g, fields: o.fields[:k]}.key(), want: rel, root: g}
+			if k > 0 {
+				q.last = o.fields[k-1]
+			}
+			return q, true
+		}
+		// a scalar variable: its setter has to fill it from config.Proxy.<cfgField> (decided by F1)
+		q := c19cfgReq{key: o.key(), want: []string{"Proxy", cfgField}, root: g}
+		if n := len(o.fields); n > 0 {
+			q.last = o.fields[n-1]
+		}
+		return q, true
+	}
+	checkLimit := func(at token.Pos, stores []*ssa.Store, owner, field, cfgField string) {
 		key := "transport.NewTransport|" + owner + "." + field
 		if len(stores) == 0 {
-			c.check("C19.F2", key, newT.Pos(), false, owner+"."+field+" is never set: the configured proxy."+strings.ToLower(cfgField)+" cannot take effect")
+			c.check("C19.F2", key, at, false, owner+"."+field+" is never set: the configured proxy."+strings.ToLower(cfgField)+" cannot take effect")
 			return
 		}
 		for _, st := range stores {
-			got := accessPath(st.Val)
-			ok := got == wantPath(cfgField) || derivesPath(st.Val, wantPath(cfgField))
-			c.check("C19.F2", key, st.Pos(), ok, owner+"."+field+" must be loaded from "+wantPath(cfgField)+", got "+got)
+			orgs := fl.origins(st.Val)
+			ok, got := len(orgs) > 0, ""
+			for _, o := range orgs {
+				if q, good := read(o, cfgField); good {
+					addReq(q)
+				} else {
+					ok, got = false, o.key()
+				}
+			}
+			c.check("C19.F2", key, st.Pos(), ok, owner+"."+field+" must hold (unmodified) the field Proxy."+cfgField+" of the package's configuration variable; got "+got)
 		}
 	}
-	for tf, cf := range pair {
-		checkField(fs[tf], "http.Transport", tf, cf)
-	}
-	// dialer: Dial or DialContext must be a bound method of a net.Dialer literal
-	dialStores := append(append([]*ssa.Store{}, fs["Dial"]...), fs["DialContext"]...)
-	if len(dialStores) == 0 {
-		c.check("C19.F2", "transport.NewTransport|http.Transport.Dial", newT.Pos(), false, "no Dial/DialContext set: dial timeout and keep-alive cannot take effect")
-	}
-	for _, st := range dialStores {
-		var dialer ssa.Value
-		if mc, ok := st.Val.(*ssa.MakeClosure); ok && len(mc.Bindings) == 1 {
-			if fn, ok := mc.Fn.(*ssa.Function); ok && strings.HasPrefix(fn.Name(), "Dial") && namedIs(mc.Bindings[0].Type(), "net.Dialer") {
-				dialer = mc.Bindings[0]
+	pair := [][2]string{{"ResponseHeaderTimeout", "ResponseHeaderTimeout"}, {"IdleConnTimeout", "IdleConnTimeout"}, {"MaxIdleConnsPerHost", "MaxConn"}}
+	dialPair := [][2]string{{"Timeout", "DialTimeout"}, {"KeepAlive", "KeepAliveTimeout"}}
+	for _, tr := range trs {
+		fs := c19aliasStores(c, fl, tr, "net/http.Transport")
+		for _, p := range pair {
+			checkLimit(tr.Pos(), fs[p[0]], "http.Transport", p[0], p[1])
+		}
+		// Dial / DialContext must end in the Dial method of a net.Dialer built for this transport
+		dialStores := append(append([]*ssa.Store{}, fs["Dial"]...), fs["DialContext"]...)
+		if len(dialStores) == 0 {
+			c.check("C19.F2", "transport.NewTransport|http.Transport.Dial", tr.Pos(), false, "no Dial/DialContext set: dial timeout and keep-alive cannot take effect")
+		}
+		for _, st := range dialStores {
+			dialers, ok := c19dialers(fl, st.Val)
+			c.check("C19.F2", "transport.NewTransport|http.Transport.Dial", st.Pos(), ok && len(dialers) > 0,
+				"Dial must be (or only call) the Dial/DialContext method of a net.Dialer built for this transport and carrying the configured limits")
+			for _, d := range dialers {
+				ds := c19aliasStores(c, fl, d, "net.Dialer")
+				for _, p := range dialPair {
+					checkLimit(d.Pos(), ds[p[0]], "net.Dialer", p[0], p[1])
+				}
 			}
 		}
-		if dialer == nil {
-			c.check("C19.F2", "transport.NewTransport|http.Transport.Dial", st.Pos(), false, "Dial must be the Dial/DialContext method of a net.Dialer literal carrying the configured limits")
+		if sts := fs["TLSClientConfig"]; len(sts) == 0 {
+			c.check("C19.F2", "transport.NewTransport|http.Transport.TLSClientConfig", tr.Pos(), false, "TLSClientConfig not set from the parameter")
+		} else {
+			for _, st := range sts {
+				orgs := fl.origins(st.Val)
+				ok := len(orgs) > 0
+				for len(orgs) == 1 { // tlscfg.Clone() is as good as tlscfg
+					call, isCall := orgs[0].root.(*ssa.Call)
+					if !isCall || calleeName(&call.Call) != "(*crypto/tls.Config).Clone" || len(orgs[0].fields) != 0 {
+						break
+					}
+					orgs = fl.origins(call.Call.Args[0])
+				}
+				for _, o := range orgs {
+					p, isParam := o.root.(*ssa.Parameter)
+					if !isParam || p.Parent() != newT || len(o.fields) != 0 {
+						ok = false
+					}
+				}
+				c.check("C19.F2", "transport.NewTransport|http.Transport.TLSClientConfig", st.Pos(), ok && len(orgs) > 0, "TLSClientConfig must be NewTransport's TLS configuration parameter")
+			}
+		}
+	}
+	return reqs
+}
+
+// c19dialers resolves the value of http.Transport.Dial/DialContext to the net.Dialer objects whose Dial it is: a bound
+// method value d.Dial, or a closure / named function whose connections all come from d.Dial / d.DialContext.
+func c19dialers(fl *c19flow, v ssa.Value) ([]*ssa.Alloc, bool) {
+	var out []*ssa.Alloc
+	ok := true
+	recv := func(x ssa.Value) {
+		orgs := fl.origins(x)
+		if len(orgs) == 0 {
+			ok = false
+		}
+		for _, o := range orgs {
+			a, isA := o.root.(*ssa.Alloc)
+			if !isA || len(o.fields) != 0 || !namedIs(a.Type(), "net.Dialer") {
+				ok = false
+				continue
+			}
+			out = append(out, a)
+		}
+	}
+	isDial := func(n string) bool {
+		return n == "(*net.Dialer).Dial" || n == "(*net.Dialer).DialContext"
+	}
+	orgs := fl.origins(v)
+	if len(orgs) == 0 {
+		return nil, false
+	}
+	for _, o := range orgs {
+		var fn *ssa.Function
+		switch x := o.root.(type) {
+		case *ssa.MakeClosure:
+			fn, _ = x.Fn.(*ssa.Function)
+			if fn != nil && fn.Synthetic != "" && len(x.Bindings) == 1 && isDial(funcName(unwrap(fn))) {
+				recv(x.Bindings[0]) // d.Dial as a method value
+				continue
+			}
+		case *ssa.Function:
+			fn = x
+		}
+		if fn == nil || len(o.fields) != 0 || !isRepoFn(fn) || len(fn.Blocks) == 0 {
+			ok = false
 			continue
 		}
-		c.check("C19.F2", "transport.NewTransport|http.Transport.Dial", st.Pos(), true, "bound method of a net.Dialer literal")
-		ds := fieldStores(dialer)
-		for df, cf := range dialPair {
-			checkField(ds[df], "net.Dialer", df, cf)
+		// a hand-written dial function: every connection it returns must come from a net.Dialer's Dial
+		n := 0
+		eachInstr(fn, func(i ssa.Instruction) {
+			call, isCall := i.(*ssa.Call)
+			if !isCall {
+				return
+			}
+			name := calleeName(&call.Call)
+			switch {
+			case isDial(name) && len(call.Call.Args) > 0:
+				n++
+				recv(call.Call.Args[0])
+			case strings.HasPrefix(name, "net.Dial") || strings.HasPrefix(name, "crypto/tls.Dial"):
+				ok = false // a dial that bypasses the configured dialer
+			}
+		})
+		if n == 0 {
+			ok = false
 		}
 	}
-	if sts := fs["TLSClientConfig"]; len(sts) == 0 {
-		c.check("C19.F2", "transport.NewTransport|http.Transport.TLSClientConfig", newT.Pos(), false, "TLSClientConfig not set from the parameter")
-	} else {
-		for _, st := range sts {
-			_, isParam := st.Val.(*ssa.Parameter)
-			c.check("C19.F2", "transport.NewTransport|http.Transport.TLSClientConfig", st.Pos(), isParam, "TLSClientConfig must be the tlscfg parameter")
-		}
-	}
-
-	runC19F3(c)
-	runC19F4(c, newT)
-	runC19F5(c)
-	runC19F5b(c)
+	return out, ok
 }
 
-// derivesPath: the stored value is a conversion/arith-free derivation of a load with the given access path.
-func derivesPath(v ssa.Value, path string) bool {
-	switch x := v.(type) {
-	case *ssa.Convert:
-		return derivesPath(x.X, path)
-	case *ssa.ChangeType:
-		return derivesPath(x.X, path)
-	case *ssa.Phi:
-		if len(x.Edges) == 0 {
-			return false
-		}
-		for _, e := range x.Edges {
-			if !derivesPath(e, path) {
+func c19isConfigLoad(f *ssa.Function) bool { return f != nil && funcName(f) == repoMod+"/config.Load" }
+
+// c19nilParamFact: among the facts is "a configuration parameter is nil".
+func c19nilParamFact(facts []Fact) bool {
+	for _, f := range facts {
+		nn, ok := nilFact(f, func(v ssa.Value) bool {
+			p, isP := v.(*ssa.Parameter)
+			if !isP {
 				return false
 			}
+			_, isCfg := c19cfgType(p.Type())
+			return isCfg
+		})
+		if ok && !nn {
+			return true
 		}
-		return true
 	}
-	return accessPath(v) == path
+	return false
 }
 
-func runC19F3(c *Ctx) {
+// F1: every store into a configuration variable (outside package initialisation) assigns the matching part of a
+// *config.Config / config.Proxy parameter. Returns the stores (the "setter" landmarks of F3).
+func runC19F1(c *Ctx, newT *ssa.Function, reqs []c19cfgReq) map[ssa.Instruction]bool {
+	stores := map[ssa.Instruction]bool{}
+	if len(reqs) == 0 {
+		c.undecided("C19.F1", "anchor|transport config variable", "the limits of the transports NewTransport builds are not read from a package-level configuration variable")
+		return stores
+	}
+	addrFl := &c19flow{}
+	valFl := &c19flow{stopParam: c19apiParam, opaque: c19isConfigLoad}
+	inNewT := map[*ssa.Function]bool{}
+	for _, f := range c.region(newT) {
+		inNewT[f] = true
+	}
+	for _, q := range reqs {
+		n := 0
+		for _, f := range c.AllFns {
+			root := f
+			for root.Parent() != nil {
+				root = root.Parent()
+			}
+			if isInitFn(root) {
+				continue
+			}
+			eachInstr(f, func(i ssa.Instruction) {
+				var addr ssa.Value
+				var vals []ssa.Value
+				if st, ok := i.(*ssa.Store); ok {
+					addr, vals = st.Addr, []ssa.Value{st.Val}
+				} else if cc := callCommon(i); cc != nil {
+					kind, cell, val, ok := atomicOp(cc)
+					if !ok || val == nil || (kind != "store" && kind != "swap" && kind != "cas") {
+						return
+					}
+					addr, vals = cell, publishedValue(val)
+				} else {
+					return
+				}
+				// cheap pre-filter before resolving the address
+				switch a := addr.(type) {
+				case *ssa.Global:
+					if a != q.root || q.last != "" {
+						return
+					}
+				case *ssa.FieldAddr:
+					if q.last == "" || fieldName(a.X.Type(), a.Field) != q.last {
+						return
+					}
+				default:
+					return
+				}
+				hit := false
+				for _, k := range c19addrKeys(addrFl, addr) {
+					hit = hit || k == q.key
+				}
+				if !hit {
+					return
+				}
+				n++
+				stores[i] = true
+				ok, got := true, ""
+				for _, v := range vals {
+					orgs := valFl.origins(v)
+					if len(orgs) == 0 {
+						ok = false
+					}
+					nParam := 0
+					for _, o := range orgs {
+						rel, isCfg := []string(nil), false
+						switch x := o.root.(type) {
+						case *ssa.Parameter:
+							rel, isCfg = c19cfgType(x.Type())
+						case *ssa.Call: // the setter was inlined into the function that loads the configuration
+							if o.idx == 0 && c19isConfigLoad(x.Call.StaticCallee()) {
+								rel, isCfg = c19cfgType(x.Call.Signature().Results().At(0).Type())
+							}
+						case *ssa.Alloc: // `if c == nil { c = &config.Config{} }`: a default for a missing configuration
+							if len(o.fields) == 0 && c19nilParamFact(o.facts) {
+								continue
+							}
+						}
+						if !isCfg || !c19eq(append(append([]string{}, rel...), o.fields...), q.want) {
+							ok, got = false, o.key()
+						} else {
+							nParam++
+						}
+					}
+					ok = ok && nParam > 0
+				}
+				what := "config.Config"
+				if len(q.want) > 0 {
+					what += "." + strings.Join(q.want, ".")
+				}
+				c.check("C19.F1", fnKey(f)+"|store "+q.key, i.Pos(), ok,
+					"the variable "+q.key+" (read by NewTransport) must be assigned "+what+" of the configuration handed to the setter; got "+got+" => transports are built from something else than the loaded configuration")
+			})
+		}
+		if n > 0 {
+			continue
+		}
+		// no store at all: name the functions that look like the setter (they take a configuration and are not part of NewTransport)
+		cands := 0
+		for _, f := range c.AllFns {
+			if f.Parent() != nil || rootPkg(f) != q.root.Pkg || inNewT[f] || isInitFn(f) {
+				continue
+			}
+			takesCfg := false
+			for _, p := range f.Params {
+				if _, ok := c19cfgType(p.Type()); ok {
+					takesCfg = true
+				}
+			}
+			if !takesCfg {
+				continue
+			}
+			cands++
+			c.check("C19.F1", fnKey(f)+"|store "+q.key, f.Pos(), false,
+				"setter must assign the package variable "+q.key+" (read by NewTransport) a value derived from its configuration parameter; no such store exists in the program (a parameter shadowing the variable makes `cfg = cfg` a self-assignment) => every transport is built from the zero config, i.e. without limits")
+		}
+		c.atLeast("C19.F1", "store into "+q.key+" outside package initialisation", cands, 1)
+	}
+	return stores
+}
+
+// F3: the program's entry hands config.Load's result to the setter before anything that can build a transport runs.
+func runC19F3(c *Ctx, newT *ssa.Function, reqs []c19cfgReq, stores map[ssa.Instruction]bool) {
 	mainFn := c.fn("main", "main")
 	if !c.need("C19.F3", mainFn, "main.main") {
 		return
 	}
-	var setCalls []ssa.Instruction
-	eachInstr(mainFn, func(i ssa.Instruction) {
-		if cc := callCommon(i); cc != nil {
-			if sc := cc.StaticCallee(); sc != nil && sc.Pkg != nil && sc.Pkg.Pkg.Path() == repoMod+"/transport" && sc != c.fn("transport", "NewTransport") {
-				for _, a := range cc.Args {
-					if namedIs(a.Type(), "config.Config") {
-						setCalls = append(setCalls, i)
+	// the landmark "the configuration is set": the stores found by F1; when F1 found none (reported there), the calls
+	// that hand a configuration to the transports' package stand in, so that the ordering is still decided
+	tpkgs := map[*ssa.Package]bool{rootPkg(newT): true} // the packages that own the configuration variables
+	for _, q := range reqs {
+		tpkgs[q.root.Pkg] = true
+	}
+	inNewT := map[*ssa.Function]bool{}
+	for _, f := range c.region(newT) {
+		inNewT[f] = true
+	}
+	isStore := func(i ssa.Instruction) bool {
+		if len(stores) > 0 {
+			return stores[i]
+		}
+		cc := callCommon(i)
+		if cc == nil || tpkgs[rootPkg(i.Parent())] {
+			return false
+		}
+		sc := cc.StaticCallee()
+		if sc == nil || !tpkgs[rootPkg(sc)] || inNewT[sc] {
+			return false
+		}
+		for _, a := range cc.Args {
+			if _, ok := c19cfgType(a.Type()); ok {
+				return true
+			}
+		}
+		return false
+	}
+	// setter calls: calls from outside the variable's package to a function of that package that may perform the store
+	loadFl := &c19flow{opaque: c19isConfigLoad}
+	nSet := 0
+	for _, f := range c.AllFns {
+		if tpkgs[rootPkg(f)] {
+			continue
+		}
+		eachInstr(f, func(i ssa.Instruction) {
+			if stores[i] {
+				nSet++ // the variable is assigned directly from outside its package (value checked by F1)
+				return
+			}
+			cc := callCommon(i)
+			if cc == nil {
+				return
+			}
+			sc := cc.StaticCallee()
+			if sc == nil || !tpkgs[rootPkg(sc)] || !(isStore(i) || mayExec(sc, isStore, 0)) {
+				return
+			}
+			nSet++
+			for _, a := range cc.Args {
+				rel, isCfg := c19cfgType(a.Type())
+				if !isCfg {
+					continue
+				}
+				orgs := loadFl.origins(a)
+				ok, got := len(orgs) > 0, ""
+				for _, o := range orgs {
+					call, isCall := o.root.(*ssa.Call)
+					if !isCall || o.idx != 0 || calleeName(&call.Call) != repoMod+"/config.Load" || !c19eq(o.fields, rel) {
+						ok, got = false, o.key()
 					}
+				}
+				c.check("C19.F3", fnKey(f)+"|setter argument", i.Pos(), ok, "the configuration given to the transport setter must be config.Load's result; got "+got)
+			}
+		})
+	}
+	if nSet == 0 {
+		c.check("C19.F3", "main.main|call transport setter", mainFn.Pos(), false, "the program never hands the loaded configuration to package transport: all transports are built from the zero config")
+		return
+	}
+	// ordering: nothing that can build a transport is started before the configuration is stored
+	builds := func(f *ssa.Function) bool {
+		f = unwrap(f)
+		return f == newT || (isRepoFn(f) && c.reach(f)[newT])
+	}
+	launches := func(i ssa.Instruction) (callee *ssa.Function, yes bool) {
+		cc := callCommon(i)
+		if cc == nil {
+			return nil, false
+		}
+		if sc := cc.StaticCallee(); sc != nil && isRepoFn(sc) && builds(sc) {
+			return unwrap(sc), true
+		}
+		for _, a := range cc.Args { // a callback handed over may run from here on
+			for _, g := range funcsOf(a) {
+				if isRepoFn(g) && builds(g) {
+					return nil, true
 				}
 			}
 		}
-	})
-	if len(setCalls) == 0 {
-		c.check("C19.F3", "main.main|call transport setter", mainFn.Pos(), false, "main never hands the loaded configuration to package transport: all transports are built from the zero config")
-		return
+		return nil, false
 	}
-	set := setCalls[0]
-	cc := callCommon(set)
-	fromLoad := derives(cc.Args[0], func(v ssa.Value) bool { _, ok := isCallTo(v, repoMod+"/config.Load"); return ok })
-	c.check("C19.F3", "main.main|setter argument", set.Pos(), fromLoad, "the configuration given to the transport setter must be config.Load's result")
-	// must dominate everything that builds transports: startServers, go watchBackend, startAdmin
+	memo := map[*ssa.Function]bool{}
+	var ordered func(f *ssa.Function, depth int) bool
+	before := func(f *ssa.Function, i ssa.Instruction, depth int) bool {
+		if !c19entryPathAvoiding(f, i, isStore) {
+			return true // the setter has run on every path to i
+		}
+		if c19setByHelperUnlessNil(f, i, isStore) {
+			return true
+		}
+		g, _ := launches(i)
+		return g != nil && g != newT && len(g.Blocks) > 0 && depth < 4 && ordered(g, depth+1)
+	}
+	ordered = func(f *ssa.Function, depth int) bool {
+		if v, ok := memo[f]; ok {
+			return v
+		}
+		memo[f] = true // recursion: assume ordered
+		res := true
+		eachInstr(f, func(i ssa.Instruction) {
+			if _, yes := launches(i); yes && res && !before(f, i, depth) {
+				res = false
+			}
+		})
+		memo[f] = res
+		return res
+	}
 	n := 0
 	eachInstr(mainFn, func(i ssa.Instruction) {
-		cc := callCommon(i)
-		if cc == nil {
+		g, yes := launches(i)
+		if !yes {
 			return
 		}
-		sc := cc.StaticCallee()
-		if sc == nil || !isRepoFn(sc) {
-			return
+		n++
+		name := "a callback"
+		if g != nil {
+			name = fnKey(g)
 		}
-		// does the callee (transitively) reach NewTransport?
-		if c.reach(sc)[c.fn("transport", "NewTransport")] {
-			n++
-			c.check("C19.F3", "main.main|"+fnKey(sc)+" after setter", i.Pos(), dominatesInstr(set, i),
-				fnKey(sc)+" (which can build transports) must run after the transport configuration is set; otherwise transports are built with zero limits")
-		}
+		c.check("C19.F3", "main.main|"+name+" after setter", i.Pos(), before(mainFn, i, 0),
+			name+" (which can build transports) must run after the transport configuration is set; otherwise transports are built with zero limits")
 	})
-	c.atLeast("C19.F3", "calls in main that reach transport.NewTransport", n, 2)
+	c.atLeast("C19.F3", "calls in main that reach transport.NewTransport", n, 1)
 }
 
-func runC19F4(c *Ctx, newT *ssa.Function) {
-	isNewT := func(v ssa.Value) bool {
-		call, ok := v.(*ssa.Call)
-		return ok && call.Call.StaticCallee() == newT
+// c19transportRole classifies a struct field as one of the three places a transport of the HTTP proxy is kept: the
+// default and the skip-verify transport of the proxy (fields Transport / InsecureTransport of a struct of package
+// proxy) and the per-route transport (field Transport of a struct of package route).
+func c19transportRole(pkg, field string) string {
+	switch {
+	case pkg == repoMod+"/proxy" && field == "Transport":
+		return "default"
+	case pkg == repoMod+"/proxy" && field == "InsecureTransport":
+		return "insecure"
+	case pkg == repoMod+"/route" && field == "Transport":
+		return "route"
 	}
-	// every store to HTTPProxy.Transport / InsecureTransport / Target.Transport in non-test repo code
-	n := 0
+	return ""
+}
+
+// c19routeField: v is (a load of) field `field` of a struct of package route.
+func c19routeField(v ssa.Value, field string) bool {
+	v = stripIface(v)
+	if u, isU := v.(*ssa.UnOp); isU && u.Op == token.MUL {
+		v = u.X
+	}
+	var owner types.Type
+	var idx int
+	switch x := v.(type) {
+	case *ssa.FieldAddr:
+		owner, idx = x.X.Type(), x.Field
+	case *ssa.Field:
+		owner, idx = x.X.Type(), x.Field
+	default:
+		return false
+	}
+	pkg, _ := c19named(owner)
+	return pkg == repoMod+"/route" && fieldName(owner, idx) == field
+}
+
+// c19setByHelperUnlessNil: i is dominated by a call of a helper that sets the configuration on every path except
+// those on which it returns nil (`cfg := loadConfig(); if cfg == nil { return }`), and i executes only when that
+// result is not nil.
+func c19setByHelperUnlessNil(f *ssa.Function, i ssa.Instruction, isStore func(ssa.Instruction) bool) bool {
+	found := false
+	eachInstr(f, func(s ssa.Instruction) {
+		call, ok := s.(*ssa.Call)
+		if !ok || found || s == i || !dominatesInstr(s, i) {
+			return
+		}
+		h := call.Call.StaticCallee()
+		if h == nil || !isRepoFn(h) || len(h.Blocks) == 0 || !mayExec(h, isStore, 0) {
+			return
+		}
+		// the returns of h reachable without setting the configuration
+		avoid := liftMust(isStore, 1)
+		var rets []*ssa.Return
+		seen := map[*ssa.BasicBlock]bool{h.Blocks[0]: true}
+		stack := []*ssa.BasicBlock{h.Blocks[0]}
+		for len(stack) > 0 {
+			b := stack[len(stack)-1]
+			stack = stack[:len(stack)-1]
+			blocked := false
+			for _, in := range b.Instrs {
+				if avoid(in) {
+					blocked = true
+					break
+				}
+				if r, isR := in.(*ssa.Return); isR {
+					rets = append(rets, r)
+				}
+			}
+			if blocked {
+				continue
+			}
+			for _, nb := range b.Succs {
+				if !seen[nb] {
+					seen[nb] = true
+					stack = append(stack, nb)
+				}
+			}
+		}
+		for k := 0; k < h.Signature.Results().Len(); k++ {
+			allNil := len(rets) > 0
+			for _, r := range rets {
+				allNil = allNil && k < len(r.Results) && isNilConst(r.Results[k])
+			}
+			if !allNil {
+				continue
+			}
+			var isRes func(v ssa.Value) bool
+			isRes = func(v ssa.Value) bool {
+				if u, isU := v.(*ssa.UnOp); isU && u.Op == token.MUL { // a variable captured by a closure lives in a cell
+					if a, isA := u.X.(*ssa.Alloc); isA {
+						n, all := 0, true
+						for _, ref := range *a.Referrers() {
+							if st, isSt := ref.(*ssa.Store); isSt && st.Addr == a {
+								n++
+								all = all && isRes(st.Val)
+							}
+						}
+						return n > 0 && all
+					}
+				}
+				if h.Signature.Results().Len() == 1 {
+					return v == ssa.Value(call)
+				}
+				e, isE := v.(*ssa.Extract)
+				return isE && e.Tuple == ssa.Value(call) && e.Index == k
+			}
+			if knownNonNil(i.Block(), isRes) {
+				found = true
+			}
+		}
+	})
+	return found
+}
+
+// F4: every transport the HTTP proxy can use is a NewTransport result, and the reverse proxy is given the per-route
+// transport when there is one, else the skip-verify transport when the target asks for it, else the default.
+func runC19F4(c *Ctx, newT *ssa.Function) {
+	fl := &c19flow{opaque: func(f *ssa.Function) bool { return f == newT }}
+	roles := map[string]int{}
 	for _, f := range c.AllFns {
 		eachInstr(f, func(i ssa.Instruction) {
 			st, ok := i.(*ssa.Store)
@@ -257,82 +724,124 @@ func runC19F4(c *Ctx, newT *ssa.Function) {
 				return
 			}
 			fname := fieldName(fa.X.Type(), fa.Field)
-			owner := ""
-			switch {
-			case namedIs(fa.X.Type(), "proxy.HTTPProxy") && (fname == "Transport" || fname == "InsecureTransport"):
-				owner = "proxy.HTTPProxy"
-			case namedIs(fa.X.Type(), "route.Target") && fname == "Transport":
-				owner = "route.Target"
-			default:
+			pkg, tname := c19named(fa.X.Type())
+			role := c19transportRole(pkg, fname)
+			if role == "" || isNilConst(stripIface(st.Val)) { // nil = "no transport of its own": selection falls through
 				return
 			}
-			n++
-			v := st.Val
-			if mi, ok := v.(*ssa.MakeInterface); ok {
-				v = mi.X
+			owner := pkg[strings.LastIndex(pkg, "/")+1:] + "." + tname
+			roles[role]++
+			orgs := fl.origins(st.Val)
+			ok, got := len(orgs) > 0, ""
+			for _, o := range orgs {
+				call, isCall := o.root.(*ssa.Call)
+				if !isCall || call.Call.StaticCallee() != newT || len(o.fields) != 0 {
+					ok, got = false, o.key()
+				}
 			}
-			c.check("C19.F4", fnKey(f)+"|"+owner+"."+fname, st.Pos(), isNewT(v),
-				owner+"."+fname+" must be a transport.NewTransport result so that the configured limits apply; got "+accessPath(st.Val))
+			c.check("C19.F4", fnKey(f)+"|"+owner+"."+fname, st.Pos(), ok,
+				owner+"."+fname+" must be a transport.NewTransport result so that the configured limits apply; got "+got)
 		})
 	}
-	c.atLeast("C19.F4", "stores to HTTPProxy.Transport/InsecureTransport/Target.Transport", n, 3)
-
-	// selection order in ServeHTTP
-	serve := c.method("proxy", "HTTPProxy", "ServeHTTP")
-	if !c.need("C19.F4", serve, "proxy.HTTPProxy.ServeHTTP") {
-		return
+	for _, role := range []string{"default", "insecure", "route"} {
+		c.atLeast("C19.F4", "stores of the "+role+" transport of the HTTP proxy", roles[role], 1)
 	}
+
+	// selection: the origins of the Transport of every reverse proxy the HTTP proxy builds
+	sel := &c19flow{}
 	nSel := 0
-	eachInstr(serve, func(i ssa.Instruction) {
-		call, ok := i.(*ssa.Call)
-		if !ok {
-			return
-		}
-		sc := call.Call.StaticCallee()
-		if sc == nil || sc.Name() != "newHTTPProxy" || len(call.Call.Args) < 2 {
-			return
-		}
-		nSel++
-		tr := call.Call.Args[1]
-		key := "proxy.(*HTTPProxy).ServeHTTP|transport selection"
-		defs := defsOf(tr)
-		if len(defs) < 2 {
-			c.check("C19.F4", key, call.Pos(), false, "the transport passed to the reverse proxy must be selected among per-route, skip-verify and default transports; got a single value "+accessPath(tr))
-			return
-		}
-		var sawRoute, sawInsecure, sawDefault bool
-		for _, d := range defs {
-			dv := stripIface(d.Val)
-			facts := factsAt(d.Block)
-			isRouteTr := func(v ssa.Value) bool { _, ok := fieldOf(stripIface(v), "route.Target", "Transport"); return ok }
-			isF := func(v ssa.Value, typ, field string) bool { _, ok := fieldOf(stripIface(v), typ, field); return ok }
-			switch {
-			case isRouteTr(dv):
-				// must be guarded by t.Transport != nil
-				for _, f := range facts {
-					if nn, ok := nilFact(f, isRouteTr); ok && nn {
-						sawRoute = true
+	for _, site := range c19reverseProxies(c) {
+		for _, st := range site.fields["Transport"] {
+			nSel++
+			key := fnKey(st.Parent()) + "|transport selection"
+			var sawRoute, sawInsecure, sawDefault bool
+			other := ""
+			isRouteTr := func(v ssa.Value) bool { return c19routeField(v, "Transport") }
+			for _, o := range sel.origins(st.Val) {
+				facts := c19expand(o.facts)
+				pkg, _, field := o.lastField()
+				switch c19transportRole(pkg, field) {
+				case "route":
+					for _, f := range facts {
+						if nn, ok := nilFact(f, isRouteTr); ok && nn {
+							sawRoute = true
+						}
+					}
+				case "insecure":
+					guard, notRoute := false, false
+					for _, f := range facts {
+						if c19routeField(f.Cond, "TLSSkipVerify") && f.Truth {
+							guard = true
+						}
+						if nn, ok := nilFact(f, isRouteTr); ok && !nn {
+							notRoute = true
+						}
+					}
+					sawInsecure = sawInsecure || (guard && notRoute)
+				case "default":
+					sawDefault = true
+				default:
+					if k, isK := o.root.(*ssa.Const); !isK || !k.IsNil() {
+						other = o.key()
 					}
 				}
-			case isF(dv, "proxy.HTTPProxy", "InsecureTransport"):
-				guard, notRoute := false, false
-				for _, f := range facts {
-					if isF(f.Cond, "route.Target", "TLSSkipVerify") && f.Truth {
-						guard = true
-					}
-					if nn, ok := nilFact(f, isRouteTr); ok && !nn {
-						notRoute = true
-					}
-				}
-				sawInsecure = guard && notRoute
-			case isF(dv, "proxy.HTTPProxy", "Transport"):
-				sawDefault = true
 			}
+			c.check("C19.F4", key, st.Pos(), sawRoute && sawInsecure && sawDefault,
+				"transport selection must be: per-route transport when t.Transport != nil, else insecure transport when t.TLSSkipVerify, else default")
+			c.check("C19.F4", key+"|only configured transports", st.Pos(), other == "",
+				"the reverse proxy can be given a transport that is none of the three built by transport.NewTransport: "+other)
 		}
-		c.check("C19.F4", key, call.Pos(), sawRoute && sawInsecure && sawDefault,
-			"transport selection must be: per-route transport when t.Transport != nil, else insecure transport when t.TLSSkipVerify, else default")
-	})
-	c.atLeast("C19.F4", "newHTTPProxy calls in ServeHTTP", nSel, 1)
+	}
+	c.atLeast("C19.F4", "transports handed to a reverse proxy", nSel, 1)
+}
+
+// c19rp is one construction of an httputil.ReverseProxy (a literal, a new(T) filled in, or a constructor result that
+// is filled in) with the stores into its fields.
+type c19rp struct {
+	base   ssa.Value
+	fn     *ssa.Function
+	fields map[string][]*ssa.Store
+}
+
+func c19reverseProxies(c *Ctx) []c19rp {
+	var out []c19rp
+	idx := map[ssa.Value]int{}
+	get := func(base ssa.Value, fn *ssa.Function) *c19rp {
+		if k, ok := idx[base]; ok {
+			return &out[k]
+		}
+		idx[base] = len(out)
+		out = append(out, c19rp{base: base, fn: fn, fields: map[string][]*ssa.Store{}})
+		return &out[len(out)-1]
+	}
+	for _, f := range c.AllFns {
+		ff := f
+		eachInstr(f, func(i ssa.Instruction) {
+			switch x := i.(type) {
+			case *ssa.Alloc:
+				if namedIs(x.Type(), "net/http/httputil.ReverseProxy") {
+					get(x, ff)
+				}
+			case *ssa.Call:
+				if sc := x.Call.StaticCallee(); sc != nil && !isRepoFn(sc) && namedIs(x.Type(), "net/http/httputil.ReverseProxy") {
+					get(x, ff)
+				}
+			case *ssa.Store:
+				if fa, ok := x.Addr.(*ssa.FieldAddr); ok && namedIs(fa.X.Type(), "net/http/httputil.ReverseProxy") {
+					base := fa.X
+					if u, isU := base.(*ssa.UnOp); isU && u.Op == token.MUL { // a local pointer variable that escaped
+						if ds := defsOf(u); len(ds) == 1 && ds[0].Val != base {
+							base = ds[0].Val
+						}
+					}
+					rp := get(base, ff)
+					name := fieldName(fa.X.Type(), fa.Field)
+					rp.fields[name] = append(rp.fields[name], x)
+				}
+			}
+		})
+	}
+	return out
 }
 
 func stripIface(v ssa.Value) ssa.Value {
@@ -348,61 +857,33 @@ func stripIface(v ssa.Value) ssa.Value {
 	}
 }
 
+// F5: every reverse proxy uses fabio's error handler and a selected transport, and the handler writes 504 on the
+// edge where the error says Timeout(), that test coming before any other classification of the error.
 func runC19F5(c *Ctx) {
-	// every httputil.ReverseProxy literal in package proxy sets ErrorHandler to a repo function
 	n := 0
 	var handlers []*ssa.Function
-	for _, f := range c.AllFns {
-		if f.Pkg == nil || f.Pkg != c.spkg("proxy") {
-			continue
-		}
-		for _, a := range allocsOf(f, "httputil.ReverseProxy") {
-			n++
-			fs := fieldStores(a)
-			ok := false
-			for _, st := range fs["ErrorHandler"] {
-				if h, isFn := st.Val.(*ssa.Function); isFn && isRepoFn(h) {
+	for _, site := range c19reverseProxies(c) {
+		n++
+		ok := false
+		for _, st := range site.fields["ErrorHandler"] {
+			for _, h := range funcsOf(st.Val) {
+				if isRepoFn(h) && len(h.Blocks) > 0 {
 					ok = true
-					handlers = append(handlers, h)
-				} else if mc, isMC := st.Val.(*ssa.MakeClosure); isMC {
-					ok = true
-					handlers = append(handlers, mc.Fn.(*ssa.Function))
-				}
-			}
-			c.check("C19.F5", fnKey(f)+"|ReverseProxy.ErrorHandler", a.Pos(), ok, "the reverse proxy must use fabio's error handler; without it every upstream timeout is answered 502 instead of 504")
-			// Transport = parameter (also C07.D1)
-			okT := false
-			for _, st := range fs["Transport"] {
-				if _, isP := stripIface(st.Val).(*ssa.Parameter); isP {
-					okT = true
-				}
-			}
-			c.check("C19.F5", fnKey(f)+"|ReverseProxy.Transport", a.Pos(), okT, "the reverse proxy's Transport must be the transport selected by ServeHTTP (the tr parameter)")
-		}
-	}
-	c.atLeast("C19.F5", "httputil.ReverseProxy literals in package proxy", n, 1)
-	for _, h := range handlers {
-		// WriteHeader argument must be 504 on the edge where (net.Error).Timeout() is true
-		found := false
-		eachInstr(h, func(i ssa.Instruction) {
-			cc := callCommon(i)
-			if cc == nil || !cc.IsInvoke() || cc.Method.Name() != "WriteHeader" || len(cc.Args) != 1 {
-				return
-			}
-			phi, ok := cc.Args[0].(*ssa.Phi)
-			if !ok {
-				return
-			}
-			for k, e := range phi.Edges {
-				if n, ok := constInt(e); ok && n == 504 {
-					for _, f := range factsAt(phi.Block().Preds[k]) {
-						if call, ok := f.Cond.(*ssa.Call); ok && f.Truth && call.Call.IsInvoke() && call.Call.Method.Name() == "Timeout" && typeStr(call.Call.Value.Type()) == "net.Error" {
-							found = true
-						}
+					dup := false
+					for _, x := range handlers {
+						dup = dup || x == h
+					}
+					if !dup {
+						handlers = append(handlers, h)
 					}
 				}
 			}
-		})
-		c.check("C19.F5", fnKey(h)+"|timeout => 504", h.Pos(), found, "the error handler must answer 504 Gateway Timeout on the edge where the error is a net.Error with Timeout() == true")
+		}
+		c.check("C19.F5", fnKey(site.fn)+"|ReverseProxy.ErrorHandler", site.base.Pos(), ok, "the reverse proxy must use fabio's error handler; without it every upstream timeout is answered 502 instead of 504")
+		c.check("C19.F5", fnKey(site.fn)+"|ReverseProxy.Transport", site.base.Pos(), len(site.fields["Transport"]) > 0, "the reverse proxy's Transport must be the transport selected for the target (unset means http.DefaultTransport, which has none of the configured limits)")
+	}
+	c.atLeast("C19.F5", "httputil.ReverseProxy constructions", n, 1)
+	for _, h := range handlers {
+		runC19F5handler(c, h)
 	}
 }
